@@ -214,3 +214,169 @@ collect_run(Params *p)
 SCENARIO(c07_collect, "C07", collect_cfg, collect_run);
 
 } // namespace
+
+// ---------------------------------------------------------------------------
+// c07_manyctx: hundreds of surveyor contexts whose surveys end in the same few
+// milliseconds.  "A receive still pending at the deadline fails with
+// NNG_ETIMEDOUT" -- every one of them, however many deadlines fall together.
+namespace {
+
+static void
+manyctx_run(Params *p)
+{
+	(void) p;
+	nng_socket S;
+	MUST(nng_surveyor0_open(&S));
+	static const int STS[] = { 20, 50, 120 };
+	int              st    = STS[W(0, 2)];
+	MUST(nng_socket_set_ms(S, NNG_OPT_SURVEYOR_SURVEYTIME, st));
+	int                  n = (int) W(150, 260);
+	std::vector<nng_ctx> cs((size_t) n);
+	std::vector<UAio *>  us((size_t) n);
+	uint64_t             t_first = 0, t_last = 0;
+	for (int i = 0; i < n; i++) {
+		MUST(nng_ctx_open(&cs[(size_t) i], S));
+		us[(size_t) i] = new UAio();
+	}
+	for (int i = 0; i < n; i++) {
+		nng_msg *m = tag_msg(24, 1, 0, (uint32_t) i);
+		if (i == 0)
+			t_first = sim_now_ns();
+		int rv = nng_ctx_sendmsg(cs[(size_t) i], m, 0);
+		if (rv != 0)
+			h_fatal("survey send: %d", rv);
+		t_last = sim_now_ns();
+		nng_aio_set_timeout(us[(size_t) i]->aio, W(0, 3) == 0 ? (nng_duration) (3 * st) : NNG_DURATION_INFINITE);
+		us[(size_t) i]->arm("manyctx_recv");
+		nng_ctx_recv(cs[(size_t) i], us[(size_t) i]->aio);
+	}
+	sim_event("c07_manyctx: %d contexts, survey time %d ms, surveys sent within %.3f ms", n, st, (double) (t_last - t_first) / 1e6);
+	// (no thread stalls are injected here: see the cfg function)
+	uint64_t until = (t_last / 1000000ull + (uint64_t) st + 1) * 1000000ull + 100 * 1000000ull;
+	if (sim_now_ns() < until)
+		sim_sleep_ns(until - sim_now_ns());
+	int pending = 0, wrong = 0;
+	for (int i = 0; i < n; i++) {
+		if (!us[(size_t) i]->poll())
+			pending++;
+		else if (us[(size_t) i]->result != NNG_ETIMEDOUT)
+			wrong++;
+	}
+	if (pending > 0)
+		VIOL("deadline_no_timeout",
+		    "%d of %d surveyor contexts: the receive is still pending 100 ms after the deadline of its survey (survey time "
+		    "%d ms, all deadlines within %.3f ms of each other)",
+		    pending, n, st, (double) (t_last - t_first) / 1e6);
+	if (wrong > 0)
+		VIOL("recv_unexpected_error", "%d of %d receives pending at the deadline ended with something other than NNG_ETIMEDOUT", wrong, n);
+	sim_stat("nontrivial", 1);
+	for (int i = 0; i < n; i++) {
+		delete us[(size_t) i];
+		MUST(nng_ctx_close(cs[(size_t) i]));
+	}
+	MUST(nng_socket_close(S));
+}
+SCENARIO(c07_manyctx, "C07", collect_cfg, manyctx_run);
+
+} // namespace
+
+// ---------------------------------------------------------------------------
+// c07_dblsend: two application threads answer the same survey on the same
+// respondent socket or context at the same time.  One response per survey:
+// "sending a response with no pending survey fails with NNG_ESTATE".
+namespace {
+
+struct DblArg {
+	nng_socket r;
+	nng_ctx    c;
+	bool       use_ctx;
+	int        round, who;
+	int        rv;
+};
+
+static void
+dbl_sender(void *a)
+{
+	DblArg  *d = (DblArg *) a;
+	nng_msg *m = tag_msg(30, (uint16_t) (20 + d->who), (uint16_t) d->round, (uint32_t) d->round);
+	if (W(0, 1))
+		sim_yield();
+	d->rv = d->use_ctx ? nng_ctx_sendmsg(d->c, m, 0) : nng_sendmsg(d->r, m, 0);
+	if (d->rv != 0)
+		nng_msg_free(m);
+}
+
+static void
+dblsend_run(Params *p)
+{
+	int        tr = (int) p->draw("tr", 0, 2);
+	nng_socket S, R;
+	MUST(nng_surveyor0_open(&S));
+	MUST(nng_respondent0_open(&R));
+	MUST(nng_socket_set_ms(S, NNG_OPT_SURVEYOR_SURVEYTIME, 2000));
+	MUST(nng_socket_set_ms(S, NNG_OPT_RECVTIMEO, 300));
+	MUST(nng_socket_set_ms(R, NNG_OPT_RECVTIMEO, 2000));
+	MUST(nng_socket_set_ms(R, NNG_OPT_SENDTIMEO, 2000));
+	std::string url = h_url(tr, 78);
+	MUST(nng_listen(S, url.c_str(), NULL, 0));
+	MUST(nng_dial(R, url.c_str(), NULL, 0));
+	sim_quiesce(20000000);
+	bool    use_ctx = W(0, 1) != 0;
+	nng_ctx c;
+	if (use_ctx)
+		MUST(nng_ctx_open(&c, R));
+	int rounds = 2 + (int) W(0, 6);
+	for (int round = 1; round <= rounds; round++) {
+		nng_msg *sv = tag_msg(24, 1, (uint16_t) round, (uint32_t) round);
+		MUST(nng_sendmsg(S, sv, 0));
+		nng_msg *q  = NULL;
+		int      rv = use_ctx ? nng_ctx_recvmsg(c, &q, 0) : nng_recvmsg(R, &q, 0);
+		if (rv != 0)
+			h_fatal("respondent receive: %d", rv);
+		nng_msg_free(q);
+		DblArg a[2];
+		int    t[2];
+		for (int k = 0; k < 2; k++) {
+			a[k].r       = R;
+			a[k].c       = c;
+			a[k].use_ctx = use_ctx;
+			a[k].round   = round;
+			a[k].who     = k;
+			a[k].rv      = -1;
+			t[k]         = sim_spawn("dblsend", dbl_sender, &a[k], 0);
+		}
+		sim_join(t[0]);
+		sim_join(t[1]);
+		int ok = (a[0].rv == 0) + (a[1].rv == 0), est = (a[0].rv == NNG_ESTATE) + (a[1].rv == NNG_ESTATE);
+		sim_event("round %d: sends returned %d and %d", round, a[0].rv, a[1].rv);
+		if (ok == 2)
+			VIOL("second_response_ok",
+			    "one survey was received and two threads each sent a response on the same respondent %s: both sends "
+			    "returned success, neither NNG_ESTATE",
+			    use_ctx ? "context" : "socket");
+		if (ok != 1 || est != 1)
+			VIOL("send_unexpected_error", "two concurrent responses to one survey returned %d and %d", a[0].rv, a[1].rv);
+		// the surveyor sees exactly one response
+		int got = 0;
+		for (;;) {
+			nng_msg *m = NULL;
+			if (nng_recvmsg(S, &m, 0) != 0)
+				break;
+			nng_msg_free(m);
+			got++;
+			if (got == 1)
+				MUST(nng_socket_set_ms(S, NNG_OPT_RECVTIMEO, 30));
+		}
+		MUST(nng_socket_set_ms(S, NNG_OPT_RECVTIMEO, 300));
+		if (got > 1)
+			VIOL("duplicate_response", "the surveyor received %d responses from one respondent to one survey", got);
+	}
+	sim_stat("nontrivial", 1);
+	if (use_ctx)
+		MUST(nng_ctx_close(c));
+	MUST(nng_socket_close(R));
+	MUST(nng_socket_close(S));
+}
+SCENARIO(c07_dblsend, "C07", NULL, dblsend_run);
+
+} // namespace
